@@ -31,7 +31,7 @@ LEVEL_TEXT = (
 LEVEL_NOTE = "Trusted: flat token model (pmverif/ref/plain.py) and RefMap reading of the stored ranges."
 TECHNIQUE = "property-based testing (Hypothesis operation histories) with a token-correspondence oracle over all positions"
 BUDGET = {
-    "quick": {"shards": 8, "examples": 700},
+    "quick": {"shards": 8, "examples": 1400},
     "thorough": {"shards": 16, "examples": 15000},
 }
 
@@ -114,6 +114,8 @@ def check_step(rs, ctx: Ctx, step, before_p: dict, after_p: dict, lib_map=None, 
     if not _well_formed(step):
         ctx.label("skipped:malformed-step-geometry")
         return
+    if type(step).__name__ == "ReplaceAroundStep":
+        ctx.label(f"around:open={min(step.slice.open_start, 2)},{min(step.slice.open_end, 2)}")
     lt = rs.leaf_types
     T0 = P.tokens_of(before_p["c"], lt)
     T1 = P.tokens_of(after_p["c"], lt)
